@@ -5,7 +5,7 @@ UNITS = [
     Unit('block1', harness=['h_block1.cpp'], **X),
     Unit('world2', harness=['h_world2.cpp'], defines=['JENV_POOLS=3', 'JENV_NEW_BLOCK_WORDS=8'], **X),
     Unit('fill', harness=['h_fill.cpp'], defines=['JENV_CBMC_ARENA_BYTES=256'], **X),
-    Unit('reset', harness=['h_reset.cpp'], **X),
+    Unit('reset', harness=['h_reset.cpp'], defines=['JENV_CBMC_ARENA_BYTES=256'], **X),
     Unit('bits', harness=['h_bits.cpp'], **X),
     Unit('gen', harness=['h_gen.cpp'], **X),
     Unit('tree', harness=['h_tree.cpp'], repo_units=[]),
@@ -60,6 +60,8 @@ HARNESSES = [
     H('reset', 'h_reset_kf_C09G', 'same, region of known finding C09G', unwind=6, known='C09G'),
     H('reset', 'h_reset_soft', 'same, soft reset', unwind=6),
     H('reset', 'h_reset_soft_then_alloc', 'same, followed by one alloc of 1..256 bytes', unwind=6, mem=4, timeout=1500, tiers=T),
+    H('reset', 'h_reset_fill', 'soft reset with fill: 64-granule block, granularity scaled to 4 bytes, 5 concrete bit patterns, any fill pattern, any byte', unwind=70, unwindset=MEM + ',%s.0:70,%s.1:70,%s.2:70' % (FP, FP, FP), mem=4),
+    H('reset', 'h_reset_fill_kf_C09D', 'same, region of known finding C09D (blocks with live spans)', unwind=70, unwindset=MEM + ',%s.0:70,%s.1:70,%s.2:70' % (FP, FP, FP), mem=4, known='C09D'),
     H('reset', 'h_reset_soft_kf_C09E', 'same, region of known finding C09E', unwind=6, known='C09E'),
     # ---- helpers the allocator relies on
     H('tree', 'h_tree_real', 'real arenatree.h: 1..2 nodes, either insertion order by address, any lookup address, any node removed', mem=4, unwindset=None, tiers=T),
@@ -82,8 +84,9 @@ OUTSIDE = [
     'alloc inside an existing block: pre-states with at most 2 free runs (the search loop runs once per free run that is too small; 6 runs: 25 M clauses, 10 min symex); '
     'the iterator itself is checked from ANY state in unit bits, so fragmentation beyond 2 runs is covered for next_range, not for the loop around it',
     'new-block paths use concrete boundary request sizes (a symbolic size makes the length/position of the new bit vectors symbolic: 42 M variables); the sizing policy is checked for every size separately',
-    'dropped (no verdict within 8 GB): first block with large pages AND initial padding; three-node real red-black tree; fill pattern written by a soft reset (wipeOutBlock, see C09D in the report); initial fill of a fresh block',
-    'JIT memory is real only in unit fill, and only the first 256 bytes of the block; release/shrink/write there are limited to spans inside the first 4 granules',
+    'dropped (no verdict within 8 GB): first block with large pages AND initial padding; three-node real red-black tree; initial fill of a fresh block',
+    'fill pattern written by a soft reset (wipeOutBlock): pool granularity scaled down to 4 bytes, five concrete bit patterns (h_reset_fill)',
+    'JIT memory is real only in units fill / reset, and only the first 256 bytes of the block; release/shrink/write there are limited to spans inside the first 4 granules',
     'release(rx) with an interior or stale (already released) pointer: the code has no used-bit check in release (unlike shrink/query) - treated as a precondition, only null and foreign pointers are claimed to be refused',
     'query(rx) with an interior pointer returns the suffix [granule of rx, end of span), not the whole span (asserted as such)',
     'real mmap / dual mapping aliasing / large pages / instruction-cache flushes (OS); two views are two buffers here',
